@@ -58,9 +58,6 @@ func New(w http.ResponseWriter, r *http.Request, options ...Option) (*ResponseWr
 				nd = !opts.preferJson
 				okJson = true
 			}
-			if nd && okJson {
-				break
-			}
 		}
 	}
 
